@@ -25,6 +25,24 @@ WEIGHTS = {"p_create": 0.5, "p_edit": 0.2, "p_ro": 0.03, "nested": 0.55, "sf": 0
 
 def generate(rng, tier):
     sc = explore.generate(rng, tier, WEIGHTS, hostile=0.25)
+    if rng.random() < 0.15:
+        # a folder (or file) renamed between two generations sealed with the same format and -dr: previous paths of
+        # directory records and file records
+        from .. import gen
+
+        tree = sc["world"]["tree"]
+        fm = gen.fmt_args(gen.pick_formats(rng, 1, 2))
+        dirs = [d for d in gen.tree_dirs(tree)]
+        tail = [scen.cmd("create", "@R", *fm), {"op": "advance", "us": 1_000_000}]
+        if dirs and rng.random() < 0.7:
+            d = rng.choice(dirs)
+            tail.append({"op": "rename", "src": d, "dst": os.path.join(os.path.dirname(d), "renamed dir %d" % rng.randrange(99)), "fault": "rename_dir"})
+        files = gen.tree_files(tree)
+        if files and rng.random() < 0.5:
+            f = rng.choice(files)
+            tail.append({"op": "rename", "src": f, "dst": f + ".ren", "fault": "rename_file"})
+        tail.append(scen.cmd("create", "@R", "-dr", *fm, *(["-n"] if rng.random() < 0.15 else [])))
+        sc["ops"] += tail
     if rng.random() < 0.12:
         # (nearly) empty worlds: empty root folder or only empty directories
         sc["world"]["tree"] = {} if rng.random() < 0.5 else {"E": {"t": "d"}, "E/F": {"t": "d"}}
